@@ -195,6 +195,7 @@ def run_execution(cfg):
                          step_budget=cfg.get("step_budget", 200_000) * (8 if sched.get("lines") else 1))
             s.sdk_probe = lambda kind_, fn_, arg_: w.rec(kind_, fn=fn_, arg=arg_)
             s.focus = sched.get("focus")
+            s.on_stall = lambda t_, d_: w.rec("stall", th=t_.idx, d=d_)  # observation only: oracles discount injected stalls
             if replay is not None:
                 ov = replay.get(str(inv), {})
                 s.overrides = {(k if str(k).startswith("y") else int(k)): v for k, v in ov.items()}
